@@ -29,11 +29,11 @@ func (mluc *MultiLocalisedUnicode) getString(language [2]byte, country [2]byte) 
 	return countries[country]
 }
 
-func (mluc *MultiLocalisedUnicode) getStringForLanguage(language [2]byte) string {
+func (mluc *MultiLocalisedUnicode) getStringForLanguage(language [2]byte) (string, bool) {
 	for _, s := range mluc.entriesByLanguageCountry[language] {
-		return s
+		return s, true
 	}
-	return ""
+	return "", false
 }
 
 func (mluc *MultiLocalisedUnicode) setString(language [2]byte, country [2]byte, text string) {
@@ -110,17 +110,16 @@ func parseMultiLocalisedUnicode(data []byte) (MultiLocalisedUnicode, error) {
 			return result, err
 		}
 
-		if uint64(stringOffset+stringLength) > uint64(len(data)) {
+		if uint64(stringOffset)+uint64(stringLength) > uint64(len(data)) {
 			return result, fmt.Errorf("record exceeds tag data length")
 		}
 
-		recordStringBytes := data[stringOffset : stringOffset+stringLength]
+		// The string is stored at the offset declared by the record (relative
+		// to the start of the tag), not necessarily right after the record.
+		recordStringBytes := data[stringOffset : uint64(stringOffset)+uint64(stringLength)]
 		recordStringUTF16 := make([]uint16, len(recordStringBytes)/2)
 		for j := 0; j < len(recordStringUTF16); j++ {
-			recordStringUTF16[j], err = binary.ReadU16Big(reader)
-			if err != nil {
-				return result, err
-			}
+			recordStringUTF16[j] = uint16(recordStringBytes[2*j])<<8 | uint16(recordStringBytes[2*j+1])
 		}
 		result.setString(language, country, string(utf16.Decode(recordStringUTF16)))
 
